@@ -53,6 +53,16 @@ def run_case(P, case):
                 "tb": traceback.format_exc()[-1500:]}
 
 
+def safe_oracle(P, case, obs):
+    """the property oracle; a crash on malformed implementation output counts as a failure of the property"""
+    if obs.get("unexpected"):
+        return obs["msg"]
+    try:
+        return P.oracle(case, obs)
+    except Exception:
+        return "the implementation's output cannot be read as the property requires (" + traceback.format_exc().strip().split("\n")[-1][:200] + ")"
+
+
 def match_known(P, findings, case, obs, what):
     for f in findings:
         if f.get("property") != P.ID or f.get("status") != "open":
@@ -155,10 +165,7 @@ def main():
             oracle_fail.append((i, f"implementation raised {obs['error']}: {obs['msg']}"))
             terms.append("false")
             continue
-        try:
-            why = P.oracle(case, obs)
-        except Exception:
-            why = "oracle crashed: " + traceback.format_exc()[-800:]
+        why = safe_oracle(P, case, obs)
         if why:
             oracle_fail.append((i, why))
         try:
@@ -166,14 +173,18 @@ def main():
         except Exception:
             terms.append("false")
             notes.append("term construction failed: " + traceback.format_exc()[-600:])
-        for tg in P.tags(case, obs):
+        try:
+            tgs, nt = P.tags(case, obs), P.nontrivial(case, obs)
+        except Exception:
+            tgs, nt = ["tags-unavailable(malformed output)"], False
+        for tg in tgs:
             counters[tg] += 1
         h = core.canonical_hash(core.jsonable(case))
         if h not in seen:
             seen.add(h)
-            if P.nontrivial(case, obs):
+            if nt:
                 distinct_nontrivial += 1
-        if len(samples) < 3 and P.nontrivial(case, obs):
+        if len(samples) < 3 and nt:
             samples.append({"input": core.jsonable(case), "observed": core.jsonable(obs)})
 
     coq_results, coq_s, coq_logs = ([], 0.0, [])
@@ -206,7 +217,7 @@ def main():
             found = False
             for case in extra:
                 obs = run_case(P, case)
-                why = P.oracle(case, obs) if not obs.get("unexpected") else obs["msg"]
+                why = safe_oracle(P, case, obs)
                 if why and not match_known(P, findings, case, obs, why):
                     violations.append(("failing-input", build_broken[:300], case, obs, why))
                     found = True
@@ -234,7 +245,7 @@ def main():
             extra = list(P.search(rng, near=case0)) if hasattr(P, "search") else []
             for case in extra:
                 obs = run_case(P, case)
-                why = P.oracle(case, obs) if not obs.get("unexpected") else obs["msg"]
+                why = safe_oracle(P, case, obs)
                 if why and not match_known(P, findings, case, obs, why):
                     found = (case, obs, why)
                     break
